@@ -389,6 +389,7 @@ func c04Correspondence(c *hx.Ctx) {
 	}
 	c.Count("corr:bio")
 	c04TagTreeCorrespondence(c)
+	c04PacketHeaderCorrespondence(c)
 	if c04Extra != nil { // round-2 hooks (c04corr2.go, build tag c04hooks2)
 		c04Extra(c)
 	}
@@ -572,6 +573,14 @@ func c05Correspondence(c *hx.Ctx) {
 		}
 		if i%7 == 0 {
 			par.Target = -1
+		}
+		if i%11 == 0 { // Rate at / above the top of the ladder, one layer requested
+			par.Append, par.Rate, par.NumLayers, par.Target = true, []int{1280, 1281, 5000}[i%3], 1, 0
+			par.RateLevels = []int{1280, 640, 320, 160, 80, 40, 20, 10, 5}
+		}
+		if i%13 == 0 { // explicit layer count below the ladder length
+			par.Append, par.Rate, par.NumLayers, par.Target = true, []int{1, 5, 20}[i%3], 2+i%5, 0
+			par.RateLevels = []int{1280, 640, 320, 160, 80, 40, 20, 10, 5}
 		}
 		k := c05Case{W: 8, H: 8, BA: ba, BS: bs, SPP: 1, PR: 0, Frames: 1, Syntax: 90, Par: par}
 		trn, trd := int(par.Target*2), 2
@@ -760,5 +769,137 @@ func c05Correspondence(c *hx.Ctx) {
 				}))
 		}
 		c.Count("corr:finalize")
+	}
+}
+
+// c04PacketHeaderCorrespondence: whole packet headers of a single-band precinct over several layers — the real
+// t2.PacketEncoder (AddCodeBlock + EncodePackets) against the encoder model, and the real t2.PacketDecoder
+// (DecodePackets on header+body of all layers) against the decoder model (Model/J2kPacketHeader.lean).
+func c04PacketHeaderCorrespondence(c *hx.Ctx) {
+	r := c.R
+	for i := 0; i < 150; i++ {
+		nx, ny := r.Range(1, 5), r.Range(1, 4)
+		if i < 5 {
+			nx, ny = []int{1, 1, 2, 3, 5}[i], []int{1, 2, 1, 3, 1}[i]
+		}
+		layers := r.Range(1, 5)
+		ncb := nx * ny
+		// per code-block: zbp and contribution (passes, bytes) per layer
+		zbp := make([]int, ncb)
+		contrib := make([][][2]int, layers) // [layer][cb] = (np, len); np == 0: not included
+		for l := range contrib {
+			contrib[l] = make([][2]int, ncb)
+		}
+		for k := 0; k < ncb; k++ {
+			zbp[k] = r.Intn(9)
+			first := r.Intn(layers + 1) // == layers: never included
+			total := 0
+			for l := first; l < layers; l++ {
+				if l > first && r.Intn(3) == 0 {
+					continue
+				}
+				np := r.Pick([]int{1, 1, 2, 3, 5, 6, 13, 36, 37})
+				if total+np > 164 {
+					continue
+				}
+				total += np
+				contrib[l][k] = [2]int{np, r.Pick([]int{0, 1, 3, 7, 8, 100, 255, 256, 511, 512, 1000, 5000})}
+			}
+		}
+		var cbToks []string
+		for y := 0; y < ny; y++ {
+			for x := 0; x < nx; x++ {
+				cbToks = append(cbToks, fmt.Sprintf("%d:%d:%d", x, y, zbp[y*nx+x]))
+			}
+		}
+		var layerToks []string
+		for l := 0; l < layers; l++ {
+			var ts []string
+			for k := 0; k < ncb; k++ {
+				if contrib[l][k][0] == 0 {
+					ts = append(ts, "x")
+				} else {
+					ts = append(ts, fmt.Sprintf("%d:%d", contrib[l][k][0], contrib[l][k][1]))
+				}
+			}
+			layerToks = append(layerToks, strings.Join(ts, ","))
+		}
+		op := fmt.Sprintf("j2k-pkthdr %d %d %s %s", nx, ny, strings.Join(cbToks, ";"), strings.Join(layerToks, "|"))
+		c.Case(op, c04Guarded(func() string {
+			pe := t2.NewPacketEncoder(1, layers, 1, t2.ProgressionLRCP)
+			cbw, cbh := 4, 4
+			pe.SetImageDimensions(nx*cbw, ny*cbh)
+			pe.SetComponentSampling(0, 1, 1)
+			pe.SetComponentBounds(0, 0, 0, nx*cbw, ny*cbh)
+			for y := 0; y < ny; y++ {
+				for x := 0; x < nx; x++ {
+					k := y*nx + x
+					cb := &t2.PrecinctCodeBlock{Index: k, X0: x * cbw, Y0: y * cbh, X1: (x + 1) * cbw, Y1: (y + 1) * cbh, CBX: x, CBY: y, Band: 0, ZeroBitPlanes: zbp[k]}
+					cum, bytes := 0, 0
+					for l := 0; l < layers; l++ {
+						np, ln := contrib[l][k][0], contrib[l][k][1]
+						for pi := 0; pi < np; pi++ { // all bytes of the contribution in its last pass
+							if pi == np-1 {
+								bytes += ln
+							}
+							cb.PassLengths = append(cb.PassLengths, bytes)
+						}
+						cum += np
+						cb.LayerPasses = append(cb.LayerPasses, cum)
+						d := make([]byte, ln)
+						for j := range d {
+							d[j] = byte(0x10 + k)
+						}
+						cb.LayerData = append(cb.LayerData, d)
+						cb.CompleteData = append(cb.CompleteData, d...)
+					}
+					cb.Data = cb.CompleteData
+					cb.NumPassesTotal = cum
+					pe.AddCodeBlock(0, 0, 0, cb)
+				}
+			}
+			pe.ResetState()
+			pk, err := pe.EncodePackets()
+			if err != nil || len(pk) != layers {
+				return "err"
+			}
+			var hs []string
+			var stream []byte
+			for _, p := range pk {
+				hs = append(hs, hx.Hex(p.Header))
+				stream = append(stream, p.Header...)
+				stream = append(stream, p.Body...)
+			}
+			pd := t2.NewPacketDecoder(stream, 1, layers, 1, t2.ProgressionLRCP, 0)
+			pd.SetImageDimensions(nx*cbw, ny*cbh, cbw, cbh)
+			pd.SetComponentBounds(0, 0, 0, nx*cbw, ny*cbh)
+			pd.SetComponentSampling(0, 1, 1)
+			dp, err := pd.DecodePackets()
+			if err != nil || len(dp) != layers {
+				return "ok " + strings.Join(hs, " ") + " | decode-err"
+			}
+			known := make([]int, ncb)
+			var ds []string
+			for _, p := range dp {
+				if !p.HeaderPresent {
+					ds = append(ds, "empty")
+					continue
+				}
+				var ts []string
+				for k, ci := range p.CodeBlockIncls {
+					if !ci.Included {
+						ts = append(ts, "x")
+						continue
+					}
+					if ci.FirstInclusion {
+						known[k] = ci.ZeroBitplanes
+					}
+					ts = append(ts, fmt.Sprintf("%d:%d:%d", ci.NumPasses, ci.DataLength, known[k]))
+				}
+				ds = append(ds, strings.Join(ts, ",")+"/0")
+			}
+			return "ok " + strings.Join(hs, " ") + " | " + strings.Join(ds, " ")
+		}))
+		c.Count("corr:packet-header")
 	}
 }
